@@ -175,7 +175,7 @@ Proof.
       [apply (g_refs _ G); rewrite HM; simpl; tauto|].
     assert (Epc : ppc_ q = PNew) by (apply (p_new _ _ _ (P p q Hq)); rewrite HM; reflexivity).
     pose proof (pmeasure_upd (fun q0 => p_set_pc q0 (loop_pc q0)) (splayers s) p q Hq) as Hs.
-    unfold pm, loop_pc in Hs. simpl in Hs. rewrite Epc in Hs. destruct (prem q); simpl in Hs; Show; lia.
+    unfold pm, loop_pc in Hs. simpl in Hs. rewrite Epc in Hs. unfold loop_pc. destruct (prem q); simpl in Hs; lia.
   - (* MCloseGet -> MCloseLoopRel *) rewrite E. simpl. rewrite Nat.eqb_refl. simpl. lia.
   - (* MCloseBreakRel -> MCloseJoinAll *) rewrite Heql. simpl. try mono_tac. lia.
   - (* MCloseJoin -> MCloseLoopAcq: the joined thread has left _threads *)
